@@ -49,55 +49,56 @@ theorem C12_one_section_per_transceiver (s s' : St) (o : Offer) (hr : Reachable 
     All₂ (fun t t' => t' = { t with mid := t'.mid }) s.trs s'.trs := by
   have hi := reachable_inv hr
   obtain ⟨rfl, hg, hc⟩ := createOffer_ok s s' o hi h
-  obtain ⟨hsecs, happ⟩ := generate_ok _ _ hg
+  obtain ⟨hsecs, _⟩ := generate_ok _ _ hg
   have hall := sectionsOf_all₂ _ _ _ hsecs
-  have hnr := no_rejected s o hg hc
-  refine ⟨?_, ?_, ?_, withMids_forall₂ 0 s.trs⟩
+  have hnr := no_rejected s hi o hg hc
+  have hsome := (normal_spec s hi).2.2.2
+  refine ⟨?_, normal_inj s hi, ?_, normal_rel s⟩
   · refine All₂.imp_mem ?_ hall
     intro t ht sec hsec
     have hrej := hnr t ht sec hsec
     obtain ⟨h1, h2, h3, _⟩ := section_basic _ _ _ hsec hrej
-    obtain ⟨m, hm, _, _⟩ := withMids_mid_range 0 s.trs t ht
-    exact ⟨hrej, h2, by rw [hm]; rfl, h1, h3⟩
-  · intro t ht u hu
-    exact withMids_mid_inj 0 s.trs t u ht hu
-  · intro t ht heq
-    obtain ⟨m, hm, _, hlt⟩ := withMids_mid_range 0 s.trs t ht
-    rw [happ] at heq
-    split at heq
-    · rw [hm] at heq
-      simp only [Option.some.injEq] at heq
-      have : ((normal s).trs.length : Int) = s.trs.length := by simp [normal, withMids_length]
-      omega
-    · rw [hm] at heq; cases heq
+    exact ⟨hrej, h2, hsome t ht, h1, h3⟩
+  · intro t ht
+    exact app_fresh _ _ hg t ht (hsome t ht)
 
-/-- helper: in a list of sections paired with renumbered transceivers, exactly one carries a given mid -/
-private theorem one_of_mid : ∀ (a : Int) (ts : List Transceiver) (secs : List Section),
-    All₂ (fun t sec => sec.mid = t.mid) (withMids a ts) secs →
-    ∀ t ∈ withMids a ts, (secs.filter (fun sec => sec.mid == t.mid)).length = 1
-  | _, [], _, _, t, ht => by simp [withMids] at ht
-  | a, x :: ts, [], h, _, _ => by simp [withMids, All₂] at h
-  | a, x :: ts, sec :: secs, h, t, ht => by
-    simp only [withMids] at h ht
+/-- helper: in a list of sections paired with transceivers whose mids are set and strictly increasing, exactly
+    one section carries a given transceiver's mid -/
+private theorem one_of_mid : ∀ (lo : Int) (ts : List Transceiver) (secs : List Section),
+    Sorted lo ts → (∀ t ∈ ts, t.mid.isSome = true) → All₂ (fun t sec => sec.mid = t.mid) ts secs →
+    ∀ t ∈ ts, (secs.filter (fun sec => sec.mid == t.mid)).length = 1
+  | _, [], _, _, _, _, t, ht => by simp at ht
+  | _, x :: ts, [], _, _, h, _, _ => by simp [All₂] at h
+  | lo, x :: ts, sec :: secs, hs, hsome, h, t, ht => by
     obtain ⟨h1, h2⟩ := h
-    have htail : ∀ sec' ∈ secs, ∃ m : Int, sec'.mid = some m ∧ a + 1 ≤ m := by
-      intro sec' hs
-      obtain ⟨u, hu, hr⟩ := All₂.exists_left h2 sec' hs
-      obtain ⟨m, hm, hge, _⟩ := withMids_mid_range (a + 1) ts u hu
-      exact ⟨m, by rw [hr, hm], hge⟩
-    simp only [List.mem_cons] at ht
-    rcases ht with rfl | ht
-    · have hnone : secs.filter (fun sec' => sec'.mid == some a) = [] := by
-        apply List.filter_eq_nil_iff.2
-        intro sec' hs
-        obtain ⟨m, hm, hge⟩ := htail sec' hs
-        simp [hm]; omega
-      simp [List.filter, h1, hnone]
-    · obtain ⟨m, hm, hge, _⟩ := withMids_mid_range (a + 1) ts t ht
-      have ih := one_of_mid (a + 1) ts secs h2 t ht
-      have : (sec.mid == t.mid) = false := by
-        rw [h1, hm]; simp; omega
-      simp [List.filter, this, ih]
+    rcases hs with ⟨m, hm, _, hrest⟩ | hn
+    · have htail : ∀ sec' ∈ secs, ∃ y : Int, sec'.mid = some y ∧ m < y := by
+        intro sec' hmem
+        obtain ⟨u, hu, hr⟩ := All₂.exists_left h2 sec' hmem
+        have hus := hsome u (by simp [hu])
+        cases hy : u.mid with
+        | none => rw [hy] at hus; cases hus
+        | some y => exact ⟨y, by rw [hr, hy], sorted_gt m ts hrest u hu y hy⟩
+      simp only [List.mem_cons] at ht
+      rcases ht with rfl | ht
+      · have hnone : secs.filter (fun sec' => sec'.mid == some m) = [] := by
+          apply List.filter_eq_nil_iff.2
+          intro sec' hmem
+          obtain ⟨y, hy, hlt⟩ := htail sec' hmem
+          simp [hy]; omega
+        simp [List.filter, h1, hm, hnone]
+      · have hts := hsome t (by simp [ht])
+        cases hy : t.mid with
+        | none => rw [hy] at hts; cases hts
+        | some y =>
+          have hlt := sorted_gt m ts hrest t ht y hy
+          have ih := one_of_mid m ts secs hrest (fun u hu => hsome u (by simp [hu])) h2 t ht
+          rw [hy] at ih
+          have : (sec.mid == some y) = false := by
+            rw [h1, hm]; simp; omega
+          simp [List.filter, this, ih]
+    · have := hsome x (by simp)
+      rw [hn x (by simp)] at this; cases this
 
 /-- "Exactly one": for every transceiver, exactly one RTP m-section of the offer carries its mid, and the
     application section does not. -/
@@ -107,8 +108,9 @@ theorem C12_exactly_one_section (s s' : St) (o : Offer) (hr : Reachable s) (h : 
   obtain ⟨h1, _, h3, _⟩ := C12_one_section_per_transceiver s s' o hr h
   have hi := reachable_inv hr
   obtain ⟨rfl, _, _⟩ := createOffer_ok s s' o hi h
+  obtain ⟨hs, _, _, hsome⟩ := normal_spec s hi
   refine ⟨(All₂.length_eq h1).symm, fun t ht => ⟨?_, h3 t ht⟩⟩
-  exact one_of_mid 0 s.trs o.media (All₂.imp (fun _ _ hd => hd.2.2.2.1) h1) t ht
+  exact one_of_mid (-1) (normal s).trs o.media hs hsome (All₂.imp (fun _ _ hd => hd.2.2.2.1) h1) t ht
 
 /-! ## Clause 2 — a sending track is announced with its msid and exactly the sender's SSRCs / groups -/
 
@@ -211,7 +213,7 @@ theorem C12_sender_announced (s s' : St) (o : Offer) (hr : Reachable s) (h : cre
   obtain ⟨rfl, hg, hc⟩ := createOffer_ok s s' o hi h
   obtain ⟨hsecs, _⟩ := generate_ok _ _ hg
   have hall := sectionsOf_all₂ _ _ _ hsecs
-  have hnr := no_rejected s o hg hc
+  have hnr := no_rejected s hi o hg hc
   have hin := inv_normal s hi
   refine All₂.imp_mem ?_ hall
   intro t ht sec hsec
@@ -292,7 +294,7 @@ theorem C12_simulcast_rids (s s' : St) (o : Offer) (hr : Reachable s) (h : creat
   obtain ⟨hsecs, _⟩ := generate_ok _ _ hg
   refine All₂.imp_mem ?_ (sectionsOf_all₂ _ _ _ hsecs)
   intro t ht sec hsec sd tr hsd htr
-  have hs := section_sender _ _ _ hsec (no_rejected s o hg hc t ht sec hsec)
+  have hs := section_sender _ _ _ hsec (no_rejected s hi o hg hc t ht sec hsec)
   simp only [hsd, Option.bind_some, htr] at hs
   obtain ⟨_, _, _, h4, h5⟩ := hs
   constructor
@@ -335,33 +337,39 @@ theorem C12_application_iff (e : Engine) (a : Bool) (ops : List Op) (s' : St) (o
 
 /-! ## Re-offers -/
 
-/-- A second `CreateOffer` right after a successful one (e.g. after `SetLocalDescription(offer)`, which
-    touches nothing `CreateOffer` reads) reproduces the same description and leaves the state alone. -/
+/-- A second `CreateOffer` right after a successful one reproduces the same description and leaves the state
+    alone. -/
 theorem C12_reoffer_same (s s' : St) (o : Offer) (hr : Reachable s) (h : createOffer s = (s', .ok o)) :
     createOffer s' = (s', .ok o) := by
   have hi := reachable_inv hr
   obtain ⟨rfl, hg, hc⟩ := createOffer_ok s s' o hi h
-  have hi' : Inv { normal s with haveOffer := true } := inv_haveOffer _ _ (inv_normal s hi)
-  have hn : normal { normal s with haveOffer := true } = { normal s with haveOffer := true } := by
-    simp [normal, withMids_idem, withMids_length]
+  have hn : normal { normal s with haveOffer := true, lastOfferMids := offerMids o } =
+      { normal s with haveOffer := true, lastOfferMids := offerMids o } := by
+    have : normal { normal s with haveOffer := true, lastOfferMids := offerMids o } =
+        { normal (normal s) with haveOffer := true, lastOfferMids := offerMids o } := rfl
+    rw [this, normal_normal s hi]
   unfold createOffer
-  rw [offerLoop_succ 126 _ hi', hn]
-  have hg' : generate { normal s with haveOffer := true } = .ok o := hg
+  rw [offerLoop_succ 126 _, hn]
+  have hg' : generate { normal s with haveOffer := true, lastOfferMids := offerMids o } = .ok o := hg
   rw [hg']
-  have hc' : changed ({ normal s with haveOffer := true } : St).trs o = false := hc
+  have hc' : changed ({ normal s with haveOffer := true, lastOfferMids := offerMids o } : St).trs o = false := hc
   simp [hc']
 
-/-- `SetLocalDescription(offer)` (the signaling-state step) is invisible to `CreateOffer`: the next offer is the
-    one the connection would have produced without it. -/
-theorem C12_setLocal_invisible (s : St) :
-    (createOffer (step s .setLocal).1).2 = (createOffer s).2 := by
+/-- offer → `SetLocalDescription(offer)` → `CreateOffer` reproduces the same description. (The pending local
+    description only raises `greaterMid`, i.e. the numbers that transceivers added LATER will get; whether a
+    later re-offer before any answer keeps the application section's mid is C09's subject, not C12's.) -/
+theorem C12_setLocal_same_description (s s' : St) (o : Offer) (hr : Reachable s)
+    (h : createOffer s = (s', .ok o)) :
+    (createOffer (step s' .setLocal).1).2 = .ok o := by
+  have hre := C12_reoffer_same s s' o hr h
+  have hi := reachable_inv hr
+  obtain ⟨rfl, hg, hc⟩ := createOffer_ok s s' o hi h
   simp only [step]
   split
-  · rfl
+  · rw [hre]
   · split
-    · rfl
-    · unfold createOffer
-      rw [offerLoop_localOffer true 127 s]
+    · rw [hre]
+    · exact offer_again (normal s) _ o hg hc (normal_spec s hi).2.2.2 rfl rfl rfl rfl
 
 /-- "The SSRCs its sender will use": no call changes the SSRCs of a sender that stays attached to its
     transceiver (`AddEncoding` appends a new triple, `ReplaceTrack`, `Stop`, `CreateOffer`, … keep the list), so
@@ -380,8 +388,8 @@ example : ((step (runOps (init engAll' false) [.addTrack (vTrack' 5)]).1 (.addEn
 
 /-- `CreateOffer` succeeds exactly when the MediaEngine has a codec for the kind of every transceiver.
     (Otherwise it fails with `ErrSenderWithNoCodecs`, or — for a sender-less transceiver — with
-    `errExcessiveRetries`, because the bare rejected m-line carries no mid and `hasLocalDescriptionChanged` never
-    accepts the description.)  In particular the three clauses are not vacuous on any history that uses an engine
+    `errExcessiveRetries`, because the rejected m-line carries its mid but no direction attribute and
+    `hasLocalDescriptionChanged` never accepts the description.)  In particular the three clauses are not vacuous on any history that uses an engine
     with audio and video codecs and audio/video tracks only. -/
 theorem C12_offer_succeeds_iff (s : St) (hr : Reachable s) :
     (∃ s' o, createOffer s = (s', .ok o)) ↔ ∀ t ∈ s.trs, s.eng.hasCodecs t.kind = true := by
@@ -391,16 +399,16 @@ theorem C12_offer_succeeds_iff (s : St) (hr : Reachable s) :
     obtain ⟨rfl, hg, hc⟩ := createOffer_ok s s' o hi h
     obtain ⟨hsecs, _⟩ := generate_ok _ _ hg
     have hall := sectionsOf_all₂ _ _ _ hsecs
-    obtain ⟨t', ht', hrel⟩ := (withMids_forall₂ 0 s.trs).exists_right t ht
+    obtain ⟨t', ht', hrel⟩ := (normal_rel s).exists_right t ht
     obtain ⟨sec, _, hsec⟩ := hall.exists_right t' ht'
-    have hb := section_basic _ _ _ hsec (no_rejected s o hg hc t' ht' sec hsec)
+    have hb := section_basic _ _ _ hsec (no_rejected s hi o hg hc t' ht' sec hsec)
     rw [hrel] at hb
     exact hb.2.2.2
   · intro hall
-    obtain ⟨o, hg, hc⟩ := offer_accepted s hall
-    refine ⟨{ normal s with haveOffer := true }, o, ?_⟩
+    obtain ⟨o, hg, hc⟩ := offer_accepted s hi hall
+    refine ⟨{ normal s with haveOffer := true, lastOfferMids := offerMids o }, o, ?_⟩
     unfold createOffer
-    rw [offerLoop_succ 126 s hi, hg]
+    rw [offerLoop_succ 126 s, hg]
     simp [hc]
 
 /-! ## Non-vacuity: concrete histories on which `CreateOffer` succeeds -/
@@ -454,7 +462,7 @@ example : (offerOf (runOps (init engAll true) [.addTrack (vTrack 0), .replaceTra
     = some (some 1, [[]], [[.sendrecv]]) := by decide
 
 /-- an engine without audio codecs: a recvonly audio transceiver makes `CreateOffer` fail after 128 attempts
-    (the bare rejected m-line has no mid, `hasLocalDescriptionChanged` never accepts it) — the property only
+    (the rejected m-line has its mid but no direction attribute, `hasLocalDescriptionChanged` never accepts it) — the property only
     speaks about successful offers -/
 example : (offerOf (runOps (init { engAll with aCodecs := false } false) [.addKind .audio (some .recvonly) 0]).1)
     = none := by decide
